@@ -50,7 +50,13 @@ def impl_vector_field(case):
                     from pyrates.frontend.template import clear_cache
                     clear_cache()
                     os.makedirs("ymod", exist_ok=True)
-                    open("ymod/model.yaml", "w").write(case["yaml_text"])
+                    ydir = os.path.join(os.getcwd(), "ymod")
+                    open("ymod/model.yaml", "w").write(case["yaml_text"].replace("@@YDIR@@", ydir))
+                    for fn in ("other.yaml",):
+                        if os.path.exists(os.path.join(ydir, fn)):
+                            os.remove(os.path.join(ydir, fn))
+                    for fn, text in case.get("yaml_files", {}).items():
+                        open(os.path.join(ydir, fn), "w").write(text.replace("@@YDIR@@", ydir))
                     c = CircuitTemplate.from_yaml(os.path.join(os.getcwd(), "ymod", "model", case["yaml_root"]))
                 else:
                     c, ops, nts = M.build_pyrates(mdl, style=case.get("style"))
